@@ -900,6 +900,12 @@ class Interp:
             return [recv.args[0]] if recv.name == "Option::Some" else []       # an Option iterates over zero or one item
         if m in ("is_some", "is_none") and isinstance(recv, V) and not n["args"]:
             return (recv.name == "Option::Some") == (m == "is_some")
+        if m in ("is_ok_and", "is_err_and") and isinstance(recv, V) and recv.name in ("Result::Ok", "Result::Err") and len(n["args"]) == 1:
+            if (recv.name == "Result::Ok") != (m == "is_ok_and"):
+                return False
+            return self._bool(self.apply(self.ev(n["args"][0], env), [recv.args[0]]), n)
+        if isinstance(recv, int) and not isinstance(recv, bool) and not n["args"] and m in CHAR_PREDICATES and 0 <= recv < 128 and str(n["recv"].get("ty", "")).lstrip("&") == "u8":
+            return CHAR_PREDICATES[m](chr(recv))          # u8::is_ascii_*
         if m in ("is_ok", "is_err") and isinstance(recv, V) and not n["args"]:
             return (recv.name == "Result::Ok") == (m == "is_ok")
         if m in ("unwrap", "expect") and isinstance(recv, V) and recv.name in ("Option::Some", "Result::Ok"):
